@@ -6,7 +6,9 @@ import CocoVerif.Props.C07
 
 Proved here (model level):
 * the NEXT patcher: a FOR pushes its variable, a bare NEXT takes the variable of the innermost open
-  FOR and closes it, a NEXT with variables is left alone (`next_patch_*`);
+  FOR and closes it, a NEXT with variables closes the loops it names (`next_patch_*`); for **every**
+  lexically nested statement list the patched list has no bare NEXT left and every NEXT names exactly
+  the innermost open loop(s) it closes (`next_patch_explicit`, induction over the list);
 * the ELSE-IF translation: the emitted `LOOP / EXITIF … ENDEXIT / ENDLOOP` takes the branch of the
   first true guard exactly like the source's IF / ELSE IF chain, and the final `EXITIF TRUE` is the
   ELSE branch (`elseif_loop_equiv`); **without** a final ELSE and with all guards false the loop
@@ -48,6 +50,92 @@ theorem next_after_named_next (i j : Expr) (a b : Expr) (p : List Expr) (par : B
     let s3 := (nextPatch (.next (.mk par [j]) p) s2).2
     (nextPatch (.next (.mk par []) p) s3).1 = .next (.mk par [i]) p := by
   simp [nextPatch]
+
+/-! ### a whole statement list: after the patcher every NEXT names the loop(s) it closes -/
+
+inductive Kind | for_ (v : Expr) | next (vars : List Expr) | other
+
+/-- what the patcher sees of a statement that has no statements inside it -/
+def kindOf : Stmt → Option Kind
+  | .for_ v _ _ _ _ => some (.for_ v)
+  | .next (.mk _ vs) _ => some (.next vs)
+  | .next (.raw _) _ => none
+  | .stmts .. | .if_ .. | .ifElse .. => none
+  | _ => some .other
+
+/-- lexically nested loops: a bare NEXT needs an open loop, a NEXT with names must name the innermost
+open loops, innermost first; `explicit` additionally forbids bare NEXTs -/
+def nested (explicit : Bool) : List Stmt → List Expr → Prop
+  | [], _ => True
+  | s :: ss, st =>
+    match kindOf s with
+    | none => False
+    | some (.for_ v) => nested explicit ss (v :: st)
+    | some .other => nested explicit ss st
+    | some (.next []) => explicit = false ∧ (match st with | _ :: st' => nested explicit ss st' | [] => False)
+    | some (.next (v :: vs)) => (v :: vs) = st.take (vs.length + 1) ∧ nested explicit ss (st.drop (vs.length + 1))
+
+theorem nextPatch_other (s : Stmt) (st : List Expr) (h : kindOf s = some .other) : nextPatch s st = (s, st) := by
+  cases s <;> simp_all [kindOf, nextPatch]
+  all_goals (rename_i vars p; cases vars <;> simp_all [kindOf])
+
+/-- **for every lexically nested statement list**: the patched list is lexically nested too, with no
+bare NEXT left — each NEXT names exactly the innermost open loop(s) it closes, so BASIC09's block
+pairing closes the loop the source's NEXT closed -/
+theorem next_patch_explicit : ∀ (ss : List Stmt) (st : List Expr), nested false ss st →
+    nested true (nextPatchList ss st).1 st
+  | [], st, _ => by simp [nextPatchList, nested]
+  | s :: ss, st, h => by
+      simp only [nested] at h
+      cases hk : kindOf s with
+      | none => simp [hk] at h
+      | some k =>
+        simp only [hk] at h
+        cases k with
+        | other =>
+            have := nextPatch_other s st hk
+            simp only [nextPatchList, this, nested, hk]
+            exact next_patch_explicit ss st h
+        | for_ v =>
+            cases s with
+            | for_ v' a b stp p =>
+                simp only [kindOf, Option.some.injEq, Kind.for_.injEq] at hk
+                subst hk
+                simp only [nextPatchList, nextPatch, nested, kindOf]
+                exact next_patch_explicit ss (v' :: st) h
+            | next el p => cases el <;> simp [kindOf] at hk
+            | _ => simp [kindOf] at hk
+        | next vars =>
+            cases s with
+            | next el p =>
+              cases el with
+              | raw t => simp [kindOf] at hk
+              | mk par es =>
+                simp only [kindOf, Option.some.injEq, Kind.next.injEq] at hk
+                subst hk
+                cases es with
+                | nil =>
+                    cases st with
+                    | nil => exact absurd h.2 (by simp)
+                    | cons v st' =>
+                        simp only [nextPatchList, nextPatch, nested, kindOf, List.length_nil, Nat.zero_add, List.take_succ_cons,
+                          List.take_zero, List.drop_succ_cons, List.drop_zero, true_and]
+                        exact next_patch_explicit ss st' h.2
+                | cons e es' =>
+                    have hp : nextPatch (.next (.mk par (e :: es')) p) st = (.next (.mk par (e :: es')) p, st.drop (es'.length + 1)) :=
+                      next_patch_named par e es' p st
+                    simp only [nextPatchList, hp, nested, kindOf]
+                    exact ⟨h.1, next_patch_explicit ss _ h.2⟩
+            | _ => simp [kindOf] at hk
+
+-- FOR I : FOR J : NEXT J : NEXT   is lexically nested; after the patcher it reads NEXT J : NEXT I
+example : (nextPatchList [.for_ (.var "I" false) (.var "A" false) (.var "B" false) none [],
+      .for_ (.var "J" false) (.var "A" false) (.var "B" false) none [], .next (.mk false [.var "J" false]) [],
+      .next (.mk false []) []] []).1 =
+    [.for_ (.var "I" false) (.var "A" false) (.var "B" false) none [],
+      .for_ (.var "J" false) (.var "A" false) (.var "B" false) none [], .next (.mk false [.var "J" false]) [],
+      .next (.mk false [.var "I" false]) []] := by
+  simp [nextPatchList, nextPatch]
 
 /-! ### the ELSE-IF chain as a loop -/
 
